@@ -302,15 +302,11 @@ def writeInitLoop (env : Env P N V) : List String → MState N V → Option Faul
 def writeInit (env : Env P N V) (ms : MState N V) (fault : Option Fault) : StepOut P N V :=
   writeInitLoop env (ms.writeDict.map (·.1)) ms fault
 
-/-- loop of `loadParameters` (124-130) -/
+/-- loop of `loadParameters` after the repair (C05): `self.writeDict.update(loaded)` — every loaded value is handed
+to `writeInitParams`, which writes it or assigns it (both through `announceUpdate`); nothing is stored directly -/
 def applyLoaded (ms : MState N V) : List (String × V) → MState N V
   | [] => ms
-  | (k, v) :: rest =>
-    let hw := match findParam ms.params k with
-      | some p => p.hasWrite
-      | none => false
-    applyLoaded { ms with params := setValue ms.params k v,
-                          writeDict := if hw then dset ms.writeDict k v else ms.writeDict } rest
+  | (k, v) :: rest => applyLoaded { ms with writeDict := dset ms.writeDict k v } rest
 
 /-- `loadParameters` (118-132); `file` is the content of the target file now -/
 def loadParameters (env : Env P N V) (ms : MState N V) (file : Option Bytes) (fault : Option Fault) :
